@@ -278,6 +278,38 @@ func runC10(c *Ctx) {
 		c.verdict(okArgs, c.nm(fn)+" | findInitialTransactions(blk, newReqs, height)", c.P.Pos(fn.Pos()), "start block searched for the requested outputs", "the start block is no longer searched for the requested outputs")
 	})
 
+	c.rule("C10.O4", "no request left behind between batches: requests a scan deferred (UtxoScanner.nextBatch) are moved back into the queue before batchManager waits for the queue to become non-empty, from the start and after every scan; every ranged element is pushed onto s.pq; nextBatch is written only by the deferral in dequeueAtHeight and the drain", func() {
+		fn := c.fn("(*neutrino.UtxoScanner).batchManager")
+		nb := c.field("neutrino", "UtxoScanner", "nextBatch")
+		drain := and(storeToField(nb), func(in ssa.Instruction) bool {
+			k, ok := in.(*ssa.Store).Val.(*ssa.Const)
+			return ok && k.IsNil()
+		})
+		wait := callTo(c.method("sync", "Cond", "Wait"))
+		starts := []start{atEntry(fn)}
+		for _, x := range find(fn, callTo(us("scanFromHeight"))) {
+			starts = append(starts, afterInstr(c, x))
+		}
+		c.mustReachBefore(fn, "entry and each finished scan", starts, drain, "the drain of nextBatch into the queue", wait, "cv.Wait()", 2)
+		// every element of nextBatch is pushed onto s.pq before the slice is cleared
+		push := c.funcObj("container/heap", "Push")
+		pq := c.field("neutrino", "UtxoScanner", "pq")
+		okPush := false
+		for _, x := range find(fn, callTo(push)) {
+			a := argsOf(x)
+			onPQ := ir.DerivesFrom(a[0], func(v ssa.Value) bool {
+				fa, ok := v.(*ssa.FieldAddr)
+				return ok && ir.FieldOfAddr(fa) == pq
+			})
+			fromNB := ir.DerivesFrom(a[1], func(v ssa.Value) bool { return loadsField(nb)(v) })
+			if onPQ && fromNB {
+				okPush = true
+			}
+		}
+		c.verdict(okPush, c.nm(fn)+" | heap.Push(&s.pq, each element of s.nextBatch)", c.P.Pos(fn.Pos()), "deferred requests re-enter the queue", "the deferred requests are no longer pushed back onto the queue")
+		c.whoMay("store to UtxoScanner.nextBatch", storeToField(nb), []string{"(*neutrino.UtxoScanner).batchManager", "(*neutrino.UtxoScanner).dequeueAtHeight"}, 2)
+	})
+
 	c.rule("C10.L1", "UtxoScanner.pq and nextBatch are accessed only under s.mu (= s.cv.L); GetUtxoRequest.result only under r.mu", func() {
 		mu := c.field("neutrino", "UtxoScanner", "mu")
 		exempt := map[string]string{"neutrino.NewUtxoScanner": "constructor"}
